@@ -52,7 +52,7 @@ TInit ==
     /\ buf = <<>> /\ rpos = 0 /\ readany = FALSE
     /\ sid = Root /\ apos = 0 /\ bpos = 0 /\ rep = 0
     /\ outpos = 0 /\ nm = 0 /\ last = NoEmit /\ eofseen = FALSE /\ faults = 0
-    /\ orc = OrcOf(CfgOf(t))
+    /\ orc = OrcOf(CfgOf(t)) /\ ftype = "none"
 
 LoadNext ==
     /\ (t + Stripes > Len(Rec)) => PrintT("DONE " \o ToJson([stripe |-> t]))
@@ -62,7 +62,7 @@ LoadNext ==
     /\ buf' = <<>> /\ rpos' = 0 /\ readany' = FALSE
     /\ sid' = Root /\ apos' = 0 /\ bpos' = 0 /\ rep' = 0
     /\ outpos' = 0 /\ nm' = 0 /\ last' = NoEmit /\ eofseen' = FALSE /\ faults' = 0
-    /\ orc' = OrcOf(CfgOf(t + Stripes))
+    /\ orc' = OrcOf(CfgOf(t + Stripes)) /\ ftype' = "none"
 
 HasOp(k) == l <= Len(Ops) /\ Ops[l][1] = k
 ToM3(o) == <<o[2] + 1, o[3], o[4]>>
@@ -75,6 +75,8 @@ Silent ==
        \/ RollFill
        \/ Eof /\ pc' = "done"
        \/ Mode = "find" /\ EmitAction /\ last'.kind = "n" /\ outpos' # outpos /\ pc' # "failed"
+       \* the caller polls StreamFindIter again after it yielded an error
+       \/ Mode = "find" /\ l <= Len(Ops) /\ l > 1 /\ Ops[l - 1][1] = "yerr" /\ Repoll
        \* table replacement: an empty replacement is written with zero write calls
        \/ Mode = "table" /\ MatchChunk /\ last'.kind = "m" /\ nm' = nm + 1 /\ pc' # "failed"
             /\ E.R[last'.mat[1]] = <<>>
